@@ -459,6 +459,19 @@ class SymInt(object):
 
     __ror__ = __or__
 
+    def __xor__(self, o):
+        # only equality of results matters where the repository uses ^ (hash mixing): uninterpreted
+        if not _intlike(o):
+            return NotImplemented
+        f = z3.Function("pyxor", z3.IntSort(), z3.IntSort(), z3.IntSort())
+        return _lift(f(self.e, z3int(o)))
+
+    def __rxor__(self, o):
+        if not _intlike(o):
+            return NotImplemented
+        f = z3.Function("pyxor", z3.IntSort(), z3.IntSort(), z3.IntSort())
+        return _lift(f(z3int(o), self.e))
+
     def __rshift__(self, o):
         if isinstance(o, int) and o >= 0:
             return _lift(self.e / z3.IntVal(1 << o))
